@@ -157,7 +157,7 @@ P["C06"] = {
     "level": "proof",
     "runs": lambda tier, seed: [{"seed": seed}] if tier == "quick" else [{"seed": seed * 1000 + i} for i in range(3)],
     "search": lambda tier, seed: [{"seed": seed * 7919}],
-    "rule": "Three schemes, N = 4..16, 3..4 primes: (a) every result of ~20 operations (fresh pk/sk, negate, add, sub incl. mixed sizes 3x2 and 2x3, multiply, square, relinearize, mod-switch, rescale, plain operations, rotations, representation changes) is checked with is_valid_for AND with the Lean model of the validity predicate on the dumped object, and must be accepted by a following operation; (b) in-place / destination (pre-filled with an unrelated object) / returning forms of 13-16 operation families run on identical operands: results bytewise equal incl. metadata, operands untouched; (c) single-field corruptions (residue = q, last residue > q, foreign parms id, key-level parms id, scale 0 / != 1, correction factor 0 / > t / != 1, truncated buffer, plaintext coefficient = t), level mismatch, wrong representation, unexpanded seed: 12 operations each must refuse.",
+    "rule": "Three schemes, N = 4..16, 3..4 primes: (a) every result of ~20 operations (fresh pk/sk, negate, add, sub incl. mixed sizes 3x2 and 2x3, multiply, square, relinearize, mod-switch, rescale, plain operations, rotations, representation changes) is checked with is_valid_for AND with the Lean model of the validity predicate on the dumped object, and must be accepted by a following operation; (b) in-place / destination (pre-filled with an unrelated object) / returning forms of 13-16 operation families run on identical operands: results bytewise equal incl. metadata, operands untouched; (c) single-field corruptions (residue = q, last residue > q, foreign parms id, key-level parms id, scale 0 / != 1, correction factor 0 / = t / > t / != 1, truncated buffer, plaintext coefficient = t), level mismatch, wrong representation, unexpanded seed: 12 operations each must refuse.",
     "assumptions": ["any refusal (panic of any kind or Err) counts; only a silent success on a corrupted operand is a violation"],
 }
 
